@@ -208,7 +208,7 @@ func runC17(c *fw.Ctx) {
 	}
 	plans := []plan{{[]string{"btree", "mem"}, 5}}
 	if c.Thorough() {
-		plans = []plan{{[]string{"btree", "mem"}, 6}, {[]string{"btree", "mem", "disk"}, 5}}
+		plans = []plan{{[]string{"btree", "mem"}, 7}, {[]string{"btree", "mem", "disk"}, 5}}
 	}
 	for _, p := range plans {
 		frontier := [][]int{{}}
